@@ -650,6 +650,21 @@ func (e *Env) call(x *ECall) (Val, error) {
 		}
 		return evalArgs()
 	}
+	if x.Fun == "local" {
+		// local(v): the function's own variable v at this point, even where the name also denotes a result (err)
+		id, ok := x.Args[0].(*EIdent)
+		if len(x.Args) != 1 || !ok {
+			return Val{}, fmt.Errorf("local takes one variable name")
+		}
+		if e.noLocals || e.block == nil {
+			return Val{}, fmt.Errorf("local(%s): no locals in this context", id.Name)
+		}
+		nv, ok := g.lookupLocal(id.Name, e.block, e.atEnd)
+		if !ok {
+			return Val{}, fmt.Errorf("local(%s): no such variable here", id.Name)
+		}
+		return e.localValue(nv), nil
+	}
 	if x.Fun == "atentry" {
 		if len(x.Args) != 1 {
 			return Val{}, fmt.Errorf("atentry takes one argument")
